@@ -82,6 +82,7 @@ def rule_clamp(chk, cls):
         # a requested time the run is already at (just shy of it, within the tolerance) is not landed on again: the next requested time inside the step is taken instead -
         # some clamping path lands on the second candidate under the facts "the first one is the present time" and "there is another", or the candidates are scanned in a loop
         second = False
+        lands_now = None
         for p_, ix in cl_paths:
             e = p_[ix[0]]
             v_ = compact(PT.resolve(e.node.value, e.env))
@@ -101,10 +102,23 @@ def rule_clamp(chk, cls):
                                             ((f_[1] is ast.LtE and f_[2] == '1') or (f_[1] is ast.Lt and f_[2] == '2')) and not tr) for f_, tr in facts)
             if near and more and '[1]]' in v_:
                 second = True
+            # the time landed on is not the present one: no clamping path has established |T - t| < epsilon for the very T it lands on (a step of a rounding error)
+            import re as _re
+            m_ = _re.match(r'^(?:float\()?(.*)-self\.t\)?$', v_)
+            if m_:
+                T_ = m_.group(1)
+                about = [(f_, tr) for f_, tr in facts if f_[0] in ('abs(%s-self.t)' % T_, 'abs(self.t-%s)' % T_) and f_[2] == 'self._epsilon']
+                near_T = any((f_[1] in (ast.Lt, ast.LtE) and tr) or (f_[1] in (ast.Gt, ast.GtE) and not tr) for f_, tr in about)
+                far_T = any((f_[1] in (ast.Gt, ast.GtE) and tr) or (f_[1] in (ast.Lt, ast.LtE) and not tr) for f_, tr in about)
+                if near_T and not far_T:          # (both at once: a path that cannot be taken)
+                    lands_now = lands_now or (T_, e.node)
         loops_ = [l for l in ast.walk(dn) if isinstance(l, (ast.For, ast.While)) and any(isinstance(a_, ast.Assign) and U(a_.targets[0]) == 'self.dt' for a_ in ast.walk(l))]
         chk.decide(second or bool(loops_), 'clamp', 'a-time-already-reached-is-skipped-for-the-next', node=node_c, file=SOL, func='_dump_output_if_needed',
                    detail_bad='when the first requested time inside the next step is the one the run is at (t is a rounding error short of it) no path goes on to the next requested time: '
                               'a second output time closer than dt is stepped over and its output never written', detail_ok='second candidate taken when the first is the present time')
+        chk.decide(lands_now is None, 'clamp', 'never-lands-on-the-present-time', node=lands_now[1] if lands_now else node_c, file=SOL, func='_dump_output_if_needed',
+                   detail_bad='a path shortens the step to reach `%s` after having found it within epsilon of the present time: the step becomes a rounding error, and the requested times that '
+                              'are still ahead are never landed on' % (lands_now[0] if lands_now else ''), detail_ok='the step is shortened only towards a time that is more than epsilon away')
         chk.decide(bad['saved'] is None, 'clamp', 'nominal-step-saved', node=node_c, file=SOL, func='_dump_output_if_needed',
                    detail_bad='the nominal step is not saved in _prev_dt before the step is shortened', detail_ok='self._prev_dt = dt first')
 
@@ -207,7 +221,7 @@ def main(chk):
             if U(a.target) == 'self.t':
                 return 't+=' + compact(a.value) if isinstance(a.op, ast.Add) else 't?'
             if U(a.target) == 'self.count':
-                return 'count+=' + compact(a.value)
+                return 'count+=' + compact(a.value) if isinstance(a.op, ast.Add) else 'count?'
             if U(a.target) == 'self.dt':
                 return 'dt?'
         if isinstance(a, ast.Assign):
